@@ -21,7 +21,9 @@ RULE = ("cases: (a) ser.todict — a generated dataclass tree over the C05 gramm
         "decoding hooks applied, hidden fields from defaults; (c) ser.typed — classes from a generated real source module, the dict "
         "written by to_dict(save_dc_types=True) (`_type_` entries at top level and in nested instances) given to from_dict twice: "
         "argument deep-equal to its copy after each call, both results equal, no aliasing (real code + oracle only). Fields may carry "
-        "to_dict=False and an encoding_fn at the same time. Non-trivial = class with >= 2 fields or nested/container field and at "
+        "to_dict=False and an encoding_fn at the same time, and hooks sit on fields of every type of the grammar (dataclass, "
+        "Optional/List/Dict of dataclasses, containers: a constant hook and a value-dependent one written without simple_parsing), not "
+        "only on primitive-typed fields. Non-trivial = class with >= 2 fields or nested/container field and at "
         "least one marked field or container; distinct by canonical JSON.")
 ASSUMPTIONS = [
     "json.dumps / yaml.safe_dump are the acceptance tests named by the property",
@@ -32,10 +34,65 @@ EXHAUSTIVE = {"quick": False, "thorough": False}
 PRIMS = (dict, list, str, int, float, bool, type(None))
 
 # ------------------------------------------------------------------------------------------------
+# hooks for fields that hold dataclass instances / containers (model: hookEnv 13 / 24 in Drive/Serial.lean)
+
+
+def hook_plain(v):
+    """A user-side encoder written without simple_parsing: every field of every nested instance, containers as lists,
+    Enum -> name, Path -> str (fresh, primitives only)."""
+    import enum
+    import pathlib
+
+    if v is None or isinstance(v, (bool, int, float, str)):
+        return v
+    if isinstance(v, enum.Enum):
+        return v.name
+    if isinstance(v, pathlib.PurePath):
+        return str(v)
+    if isinstance(v, (list, tuple, set, frozenset)):
+        return [hook_plain(x) for x in v]
+    if isinstance(v, dict):
+        return {hook_plain(k): hook_plain(x) for k, x in v.items()}
+    if dataclasses.is_dataclass(v):
+        return {f.name: hook_plain(getattr(v, f.name)) for f in dataclasses.fields(v)}
+    raise TypeError(type(v))
+
+
+HOOKS[13] = lambda v: {"w": hook_plain(v)}
+HOOKS[24] = lambda r: copy.deepcopy(r["w"])
+B.DEC_FOR_ENC[13] = 24
+NODE_ENC_HOOKS = [12, 13]
+
+
+def add_node_hooks(rng, T, p=0.3):
+    """encoding_fn / decoding_fn on fields of ANY type of the grammar (dataclass, Optional[dataclass], List[dataclass],
+    containers ...), not only on primitive-typed ones. Done in place on a copy; children first."""
+    T = dict(T)
+    for sub in ("item", "inner", "key", "val"):
+        if sub in T:
+            T[sub] = add_node_hooks(rng, T[sub], p)
+    if "items" in T:
+        T["items"] = [add_node_hooks(rng, t, p) for t in T["items"]]
+    if "fields" in T:
+        fs = []
+        for f in T["fields"]:
+            f = dict(f, ty=add_node_hooks(rng, f["ty"], p))
+            prim = f["ty"]["k"] in ("int", "str", "bool", "float")
+            holds_dc = has_kind(f["ty"], lambda t: t["k"] == "dc")
+            if not prim and f.get("enc") is None and f.get("dec") is None and rng.random() < (0.5 if holds_dc else p):
+                has_set = has_kind(f["ty"], lambda t: t["k"] == "set")
+                f["enc"] = 12 if has_set else rng.choice(NODE_ENC_HOOKS)
+                f["dec"] = B.DEC_FOR_ENC.get(f["enc"], 22) if rng.random() < 0.8 else None
+            fs.append(f)
+        T["fields"] = fs
+    return T
+
+
+# ------------------------------------------------------------------------------------------------
 # the property's own expectation of to_dict (written from the property text, independent of the model)
 
 
-def spec_encode(T, V):
+def spec_encode(T, V, b=None):
     """What to_dict must store for value V of declared type T: primitives only; containers as lists / dicts; marked fields
     omitted; a field's encoding_fn applied to that field (and only that field)."""
     k, t = T["k"], V["t"]
@@ -44,14 +101,14 @@ def spec_encode(T, V):
     if t in ("path", "enum"):
         return {"t": "str", "v": V["v"]}
     if k == "opt":
-        return spec_encode(T["inner"], V)
+        return spec_encode(T["inner"], V, b)
     if k == "union":
         return B.plain_encoding(V)
     if t in ("list", "tuple", "set"):
         items = T["items"] if k == "tuple" else [T["item"]] * len(V["v"])
-        return {"t": "list", "v": [spec_encode(ti, x) for ti, x in zip(items, V["v"])]}
+        return {"t": "list", "v": [spec_encode(ti, x, b) for ti, x in zip(items, V["v"])]}
     if t == "dict":
-        return {"t": "dict", "odict": False, "v": [[spec_encode(T["key"], kk), spec_encode(T["val"], x)] for kk, x in V["v"]]}
+        return {"t": "dict", "odict": False, "v": [[spec_encode(T["key"], kk, b), spec_encode(T["val"], x, b)] for kk, x in V["v"]]}
     if t == "inst":
         fm = {f["name"]: f for f in T["fields"]}
         out = []
@@ -60,9 +117,9 @@ def spec_encode(T, V):
             if not f.get("to_dict", True):
                 continue
             if f.get("enc") is not None:
-                out.append([{"t": "str", "v": name}, cv(HOOKS[f["enc"]](Built().val(x)))])
+                out.append([{"t": "str", "v": name}, cv(HOOKS[f["enc"]]((b or Built()).val(x)))])
             else:
-                out.append([{"t": "str", "v": name}, spec_encode(f["ty"], x)])
+                out.append([{"t": "str", "v": name}, spec_encode(f["ty"], x, b)])
         return {"t": "dict", "odict": False, "v": out}
     raise ValueError(t)
 
@@ -125,6 +182,8 @@ def gen(rng, tier):
         ctx = Ctx(rng, allow_tuple_keys=(rng.random() < 0.15), allow_hooks=True, allow_hidden=True)
         depth = rng.choice([0, 1, 1, 2, 2, 3 if not quick else 2])
         T = gen_class(ctx, depth, base=rng.choice(["Serializable", "Serializable", "Frozen", "plain"]))
+        if not B._has_tuple_key(T):
+            T = add_node_hooks(rng, T)
         x = gen_value(rng, T)
         yield {"op": "ser.todict", "case": {"ty": T, "x": x}}
         if i % 2 == 0 and not B._has_tuple_key(T):
@@ -329,7 +388,7 @@ def _impl(case, b):
         obs["probe_in"] = cv(d2) == snap
         return obs
     if op == "ser.decode":
-        raw_spec = spec_encode(c["ty"], c["x"])
+        raw_spec = spec_encode(c["ty"], c["x"], b)
         if c.get("extra"):
             raw_spec = dict(raw_spec, v=raw_spec["v"] + [[{"t": "str", "v": "zz_extra"}, {"t": "list", "v": [B.V_int(1)]}]])
         raw = b.val(raw_spec)
@@ -405,7 +464,9 @@ def oracle(case, obs):
             fails.append({"clause": "no-aliasing", "detail": f"alias pairs {obs['alias'][:3]} probe_out={obs['probe_out']} probe_in={obs['probe_in']}"})
         if not obs["x_unchanged"]:
             fails.append({"clause": "pure", "detail": "to_dict modified the instance"})
-        exp = sort_set_lists(T, c["x"], spec_encode(T, c["x"]))
+        eb = Built()
+        eb.declare(T)
+        exp = sort_set_lists(T, c["x"], spec_encode(T, c["x"], eb))
         got = sort_set_lists(T, c["x"], obs["out"]["v"])
         if B.strip_odict(exp) != B.strip_odict(got):
             fails.append({"clause": "content", "detail": f"to_dict output differs from: fields marked to_dict=False omitted, encoding_fn on its "
@@ -451,6 +512,12 @@ def nontrivial(case, obs):
 def tags(case, obs):
     T = case["case"]["ty"]
     t = [f"op:{case['op']}", f"marked:{min(n_marked(T), 4)}", f"depth:{type_depth(T)}"]
+    if has_kind(T, lambda u: u["k"] == "dc" and any((f.get("enc") is not None) and has_kind(f["ty"], lambda w: w["k"] == "dc")
+                                                    for f in u["fields"])):
+        t.append("hook-on-dataclass-field")
+    if has_kind(T, lambda u: u["k"] == "dc" and any((not f.get("to_dict", True)) and has_kind(f["ty"], lambda w: w["k"] == "dc")
+                                                    for f in u["fields"])):
+        t.append("hidden-dataclass-field")
     t += [f"kind:{k}" for k in sorted(type_kinds(T))]
     t.append("out:" + (obs["out"]["o"] if obs["out"]["o"] == "ok" else "raise:" + str(obs["out"].get("exc"))))
     if case["op"] == "ser.typed":
